@@ -13,8 +13,11 @@ remembering which nonces the real server handed out in 401 challenges (format-ag
 """
 import io
 import json
+import linecache
 import os
+import signal
 import sys
+import threading
 
 from . import common
 from . import c19_tables
@@ -95,6 +98,9 @@ THEOREMS = [
     'CpProofs.C19.processHeader_basic',
     'CpProofs.C19.basicRequest_rfc7617_client_utf8',
     'CpProofs.C19.basic_colon_user_never',
+    'CpProofs.C19.wwwAuthenticate_defaults',
+    'CpProofs.C19.wwwAuthenticate_error_iff',
+    'CpProofs.C19.parseAuth_not_digest',
 ]
 LEVEL = 'proof'
 TECHNIQUE = ('Lean 4 proof over a statement-by-statement model of basic_auth / digest_auth with the hash, base64, '
@@ -142,6 +148,9 @@ RULE = ('per generated configuration (tool x realm x accept_charset x store kind
 CODEC = {'utf-8': 'utf8', 'utf8': 'utf8', 'iso-8859-1': 'latin1', 'latin-1': 'latin1', 'latin1': 'latin1',
          'ascii': 'ascii', 'us-ascii': 'ascii'}
 PYCODEC = {'utf8': 'utf-8', 'latin1': 'latin-1', 'ascii': 'ascii'}
+
+
+CALL_TIMEOUT = 20       # seconds one request may take inside the code under test before it counts as a hang
 
 
 def tables(ctx):
@@ -200,6 +209,127 @@ def parse_model(line):
 # ----------------------------------------------------------------------------------------------
 # real-code runner
 # ----------------------------------------------------------------------------------------------
+class Hang(BaseException):
+    """raised by the watchdog inside a call into the code under test that does not return"""
+
+
+class Watchdog:
+    """`with Watchdog(seconds):` - SIGALRM based (main thread only; elsewhere it is a no-op).  A hang of the code
+    under test becomes an observation the oracle judges, not a hang of the harness."""
+
+    def __init__(self, seconds):
+        self.seconds = seconds
+        self.armed = False
+
+    def _fire(self, signum, frame):
+        raise Hang()
+
+    def __enter__(self):
+        if threading.current_thread() is threading.main_thread() and hasattr(signal, 'setitimer'):
+            self.old = signal.signal(signal.SIGALRM, self._fire)
+            signal.setitimer(signal.ITIMER_REAL, self.seconds)
+            self.armed = True
+        return self
+
+    def __exit__(self, *exc):
+        if self.armed:
+            signal.setitimer(signal.ITIMER_REAL, 0)
+            signal.signal(signal.SIGALRM, self.old)
+        return False
+
+
+class Coverage:
+    """Which lines of the functions of auth_basic.py / auth_digest.py the run executes (sys.monitoring LINE events
+    restricted to those code objects; every location reports once and is then disabled, so the cost is nil)."""
+
+    def __init__(self, modules):
+        self.codes = {}
+        self.hit = set()
+        self.tid = None
+        for m in modules:
+            for obj in list(vars(m).values()):
+                self._collect(obj, m)
+
+    def _collect(self, obj, mod):
+        import types
+        if isinstance(obj, (classmethod, staticmethod)):
+            obj = obj.__func__
+        if isinstance(obj, types.FunctionType):
+            if obj.__module__ == mod.__name__:
+                self._code(obj.__code__)
+        elif isinstance(obj, type) and obj.__module__ == mod.__name__:
+            for v in list(vars(obj).values()):
+                self._collect(v, mod)
+
+    def _code(self, code):
+        import types
+        if code in self.codes:
+            return
+        self.codes[code] = True
+        for c in code.co_consts:
+            if isinstance(c, types.CodeType):
+                self._code(c)
+
+    def executable(self):
+        out = set()
+        for code in self.codes:
+            for _, _, line in code.co_lines():
+                if line is not None and line != code.co_firstlineno:
+                    out.add((code.co_filename, line, code.co_qualname))
+        return out
+
+    def _line(self, code, line):
+        self.hit.add((code.co_filename, line))
+        return sys.monitoring.DISABLE
+
+    def start(self):
+        mon = getattr(sys, 'monitoring', None)
+        if mon is None:
+            return False
+        for tid in (3, 4, 5, 2):
+            try:
+                mon.use_tool_id(tid, 'c19-cov')
+            except ValueError:
+                continue
+            self.tid = tid
+            break
+        if self.tid is None:
+            return False
+        mon.register_callback(self.tid, mon.events.LINE, self._line)
+        for code in self.codes:
+            mon.set_local_events(self.tid, code, mon.events.LINE)
+        return True
+
+    def stop(self):
+        if self.tid is None:
+            return
+        mon = sys.monitoring
+        for code in self.codes:
+            mon.set_local_events(self.tid, code, 0)
+        mon.register_callback(self.tid, mon.events.LINE, None)
+        mon.free_tool_id(self.tid)
+        self.tid = None
+
+    def result(self):
+        """(executable, hit) as JSON-able lists of [basename, line, qualname]"""
+        ex = sorted([os.path.basename(f), l, q] for f, l, q in self.executable())
+        hit = sorted([os.path.basename(f), l] for f, l in self.hit)
+        return ex, hit
+
+
+def coverage_report(ctx, executable, hit, repo_files):
+    hitset = {(f, l) for f, l in hit}
+    missed = [(f, l, q) for f, l, q in executable if (f, l) not in hitset]
+    lines = []
+    for f, l, q in missed:
+        src = linecache.getline(repo_files.get(f, f), l).strip()
+        lines.append('%s:%d %s: %s' % (f, l, q, src[:90]))
+    ctx.extra['anchored_lines_executable'] = len(executable)
+    ctx.extra['anchored_lines_executed'] = len(executable) - len(missed)
+    ctx.extra['anchored_lines_not_executed'] = lines
+    ctx.count('anchored_lines_not_executed', len(lines))
+
+
 class Clock:
     """stands in for the `time` module inside cherrypy.lib.auth_digest"""
 
@@ -225,10 +355,19 @@ class World:
         self.probe = {}
         self.tmp = None
         probe = self.probe
+        self.cov = Coverage([auth_basic, auth_digest])
+        self.cov_on = self.cov.start()
+        self.repo_files = {os.path.basename(m.__file__): m.__file__ for m in (auth_basic, auth_digest)}
 
         class Root(object):
             @cherrypy.expose
             def index(self, *a, **kw):
+                probe['ran'] = True
+                probe['login'] = cherrypy.request.login
+                return 'ok'
+
+            @cherrypy.expose
+            def default(self, *a, **kw):
                 probe['ran'] = True
                 probe['login'] = cherrypy.request.login
                 return 'ok'
@@ -247,6 +386,7 @@ class World:
         self.see_error = see_error
 
     def close(self):
+        self.cov.stop()
         self.auth_digest.time = self.saved_time
         if self.tmp is not None:
             self.tmp.cleanup()
@@ -286,6 +426,8 @@ class World:
             c.update({'tools.auth_basic.on': True, 'tools.auth_basic.realm': cfg['realm'],
                       'tools.auth_basic.checkpassword': checkpassword,
                       'tools.auth_basic.accept_charset': cfg['charset']})
+            if cfg.get('debug'):
+                c['tools.auth_basic.debug'] = True
         else:
             if cfg['store'] == 'plain':
                 get_ha1 = self.auth_digest.get_ha1_dict_plain(users)
@@ -303,17 +445,21 @@ class World:
             c.update({'tools.auth_digest.on': True, 'tools.auth_digest.realm': cfg['realm'],
                       'tools.auth_digest.get_ha1': get_ha1, 'tools.auth_digest.key': cfg['key'],
                       'tools.auth_digest.accept_charset': cfg['charset']})
+            if cfg.get('debug'):
+                c['tools.auth_digest.debug'] = True
         a = cherrypy.Application(self.Root(), '', {'/': c})
         if len(self.apps) > 400:
             self.apps.clear()
         self.apps[key] = a
         return a
 
-    def call(self, cfg, header, method='GET', body=b'', now=0.0):
-        """One request through the real WSGI stack.  `header` is the wire value as a latin-1 str, or None."""
+    def call(self, cfg, header, method='GET', body=b'', now=0.0, path='/'):
+        """One request through the real WSGI stack.  `header` is the wire value as a latin-1 str, or None.
+        Whatever the code under test does (raise anything anywhere, never call start_response, hang, hand back
+        objects of another type) comes back as an observation; only the harness' own failures raise."""
         self.clock.now = now
         self.probe.clear()
-        env = {'REQUEST_METHOD': method, 'PATH_INFO': '/', 'SCRIPT_NAME': '', 'QUERY_STRING': '',
+        env = {'REQUEST_METHOD': method, 'PATH_INFO': path, 'SCRIPT_NAME': '', 'QUERY_STRING': '',
                'SERVER_NAME': 'c19', 'SERVER_PORT': '80', 'SERVER_PROTOCOL': 'HTTP/1.1', 'HTTP_HOST': 'c19',
                'wsgi.version': (1, 0), 'wsgi.url_scheme': 'http', 'wsgi.input': io.BytesIO(body),
                'wsgi.errors': io.StringIO(), 'wsgi.multithread': False, 'wsgi.multiprocess': False,
@@ -329,31 +475,71 @@ class World:
             out['status'] = status
             out['headers'] = headers
 
-        r = self.app(cfg)(env, start_response)
+        app = self.app(cfg)
+        raised = None
         try:
-            for _ in r:
-                pass
-        finally:
-            if hasattr(r, 'close'):
-                r.close()
-        chal = [v for k, v in out['headers'] if k.lower() == 'www-authenticate']
-        return {'status': int(out['status'].split(' ')[0]), 'challenge': chal,
-                'ran': bool(self.probe.get('ran')), 'login': self.probe.get('login'),
-                'hook': bool(self.probe.get('hook')), 'hdr': self.probe.get('hdr'),
-                'exc': self.probe.get('exc'), 'cp': self.probe.get('cp') or [], 'ha1': self.probe.get('ha1') or []}
+            with Watchdog(CALL_TIMEOUT):
+                r = app(env, start_response)
+                try:
+                    for _ in r:
+                        pass
+                finally:
+                    if hasattr(r, 'close'):
+                        r.close()
+        except Hang:
+            raised = 'hang(>%ds)' % CALL_TIMEOUT
+            self.apps.clear()           # whatever state the interrupted request left behind is not reused
+        except (KeyboardInterrupt, common.HarnessError):
+            raise
+        except BaseException as e:      # noqa: the WSGI callable itself let something escape
+            raised = type(e).__name__
+        status = None
+        try:
+            status = int(str(out['status']).split(' ')[0])
+        except (KeyError, ValueError, TypeError):
+            pass
+        chal = []
+        try:
+            chal = [v if isinstance(v, str) else repr(v) for k, v in out.get('headers') or []
+                    if str(k).lower() == 'www-authenticate']
+        except (TypeError, ValueError):
+            chal = ['<unreadable header list>']
+        login = self.probe.get('login')
+        if login is not None and not isinstance(login, str):
+            login = '<%s>%r' % (type(login).__name__, login)
+        hdr = self.probe.get('hdr')
+        if hdr is not None and not isinstance(hdr, str):
+            hdr = '<%s>%r' % (type(hdr).__name__, hdr)
+
+        def plain(rows):
+            return [[x if isinstance(x, str) or x is None else '<%s>%r' % (type(x).__name__, x) for x in row]
+                    for row in rows]
+        return {'status': status, 'raised': raised, 'challenge': chal,
+                'ran': bool(self.probe.get('ran')), 'login': login,
+                'hook': bool(self.probe.get('hook')), 'hdr': hdr,
+                'exc': self.probe.get('exc'), 'cp': plain(self.probe.get('cp') or []),
+                'ha1': plain(self.probe.get('ha1') or [])}
 
     def issue(self, cfg, at):
         """Ask the real server for a challenge at logical time `at`; returns the nonce it hands out (or None)."""
         obs = self.call(cfg, None, now=at)
         if obs['status'] != 401 or len(obs['challenge']) != 1:
             return None
-        ch = cl.parse_challenge(cl.undo_rfc2047(obs['challenge'][0]))
+        text = cl.undo_rfc2047(obs['challenge'][0])
+        ch = cl.parse_challenge(text)
         if ch is None or ch[0] != 'Digest':
+            if cl.awkward_realm(cfg['realm']):
+                # the realm is pasted unescaped: the challenge does not parse; take the nonce where it stands
+                import re
+                m = re.search(r', nonce="([^"]*)", algorithm=', text)
+                return m.group(1) if m else None
             return None
         return ch[1].get('nonce')
 
 
 def canon_real(obs):
+    if obs['status'] is None or obs.get('raised'):
+        return ['no-response', obs.get('raised') or 'start_response never called']
     if obs['ran']:
         return ['grant', obs['login']] if obs['status'] == 200 else ['ran-but-%d' % obs['status'], obs['login']]
     if obs['status'] == 401:
@@ -375,7 +561,13 @@ def oracle(case, obs):
     bad = []
     st = obs['status']
     kind = case['kind']
-    if st >= 500 or st not in (200, 400, 401):
+    mode = case.get('oracle', 'full')
+    if st is None or obs.get('raised'):
+        bad.append(('the request did not end in an HTTP response (%s): %r [%s]'
+                    % (obs.get('raised') or 'start_response never called', case['header'], kind),
+                    'no_response:%s:%s' % (cfg['tool'], obs.get('raised'))))
+        return bad
+    if mode != 'sound' and (st >= 500 or st not in (200, 400, 401)):
         sig = '5xx:%s:%s:%s' % (cfg['tool'], obs['exc'], kind)
         if cfg['tool'] == 'digest' and obs['exc'] == 'TypeError' and case.get('sent_qop') == 'auth-int':
             sig = 'F21:digest:qop=auth-int:TypeError:500'
@@ -387,7 +579,7 @@ def oracle(case, obs):
         bad.append(('200 although the probe handler did not run: %r' % (case['header'],), '200_without_handler:' + cfg['tool']))
         return bad
     now = int(case['now'])
-    if case.get('oracle') == 'no5xx':
+    if mode == 'no5xx':
         # nonces only a holder of the server key can make: outside the statement, model comparison only
         return bad
     if cfg['tool'] == 'digest':
@@ -412,6 +604,10 @@ def oracle(case, obs):
             if not any(v['user'] == obs['login'] for v in good + edge):
                 bad.append(('handler ran with login=%r although the credentials do not verify: %r [%s]'
                             % (obs['login'], case['header'], kind), 'digest_unsound:' + kind))
+            return bad
+        if mode == 'sound':
+            # configurations the statement does not clearly cover (a realm with a double quote / backslash):
+            # only "nobody gets in without verifying credentials" is demanded; the model comparison pins the rest
             return bad
         must_admit = (case['conforming'] and case['wellformed'] is True and prim is not None
                       and prim['digest_ok'] and prim['genuine'] and prim['age'] < cl.LIFETIME)
@@ -456,6 +652,8 @@ def oracle(case, obs):
             bad.append(('handler ran with login=%r although the credentials do not verify: %r [%s]'
                         % (obs['login'], case['header'], kind), 'basic_unsound:' + kind))
         return bad
+    if mode == 'sound':
+        return bad
     if case['conforming'] and case['wellformed'] is True and case.get('expect_login') is not None:
         bad.append(('correct credentials of %r rejected with %d: %r' % (case['expect_login'], st, case['header']),
                     'basic_incomplete:%d' % st))
@@ -473,7 +671,8 @@ def oracle(case, obs):
 # running cases
 # ----------------------------------------------------------------------------------------------
 def run_one(world, case):
-    obs = world.call(case['cfg'], case['header'], case['method'], case['body'].encode('latin-1'), case['now'])
+    obs = world.call(case['cfg'], case['header'], case['method'], case['body'].encode('latin-1'), case['now'],
+                     case.get('path', '/'))
     return obs
 
 
@@ -494,7 +693,7 @@ def check_cases(ctx, world, cases, compare=True):
                  key=json.dumps([cfg, case['method'], case['now'], case['header']], sort_keys=True))
         ctx.count('tool:' + cfg['tool'])
         ctx.count('kind:%s:%s' % (cfg['tool'], case['kind']))
-        ctx.count('status:%s:%d%s' % (cfg['tool'], obs['status'], ':ran' if obs['ran'] else ''))
+        ctx.count('status:%s:%s%s' % (cfg['tool'], obs['status'], ':ran' if obs['ran'] else ''))
         ctx.count('charset:' + cfg['charset'])
         ctx.count('store:' + cfg.get('store', 'checkpassword_dict'))
         if cfg['tool'] == 'digest':
@@ -524,23 +723,50 @@ def check_cases(ctx, world, cases, compare=True):
                 ctx.count('unicode:config stores non-NFC credentials')
         for what, sig in oracle(case, obs):
             ctx.oracle_fail(case, what, sig)
-        if compare and not case.get('no_model'):
+        if cfg.get('debug'):
+            ctx.count('debug:on')
+        if case['header'] is not None and '=?' in case['header']:
+            ctx.count('rfc2047:header contains =?')
+        if compare and not case.get('no_model') and obs['status'] is not None and not obs.get('raised'):
+            # (1) Request.process_headers: what the tool is handed for this raw value
+            ref = cl.process_header_ref(case['header'])
+            if case['header'] is not None:
+                dec = cl.decode_text_ref(case['header'].strip()) if '=?' in case['header'] else None
+                lines.append('seen %s %s' % (T(case['header']), 'E' if dec is None else T(dec)))
+                idx.append((i, 'seen'))
+            # (2) the tool on that value
+            if ref == ('400',):
+                ctx.count('model:400 by process_headers')
+                continue
             if obs['hook']:
                 hdr = obs['hdr']
-            elif case['header'] is None:
-                hdr = None
             else:
-                hdr = case['header'].strip()
+                hdr = ref[1]
                 if obs['status'] >= 500:
                     ctx.count('skipped_model:failed_before_tool')
                     continue
             lines.append(model_line(case, hdr))
-            idx.append(i)
+            idx.append((i, 'tool'))
     if compare and lines:
         out = ctx.model(lines)
         if out is not None:
-            for i, l in zip(idx, out):
+            for (i, what), l in zip(idx, out):
                 ctx.compared()
+                if what == 'seen':
+                    o = results[i]
+                    if o['hook']:
+                        real = 'ok ' + T(o['hdr']) if isinstance(o['hdr'], str) else 'none'
+                    elif o['status'] == 400:
+                        real = '400'
+                    else:
+                        ctx.count('skipped_seen:no hook, status %s' % o['status'])
+                        continue
+                    if real != l:
+                        ctx.disagree(cases[i], ['header the tool reads', unT(real[3:]) if real.startswith('ok ') else real],
+                                     ['header the tool reads', unT(l[3:]) if l.startswith('ok ') else l],
+                                     'Request.process_headers hands the %s tool another Authorization value than '
+                                     'strip() + RFC 2047 decoding iff "=?" (%s)' % (cases[i]['cfg']['tool'], cases[i]['kind']))
+                    continue
                 real, model = canon_real(results[i]), parse_model(l)
                 if real != model:
                     ctx.disagree(cases[i], real, model, 'outcome of the %s tool differs (%s)'
@@ -567,6 +793,70 @@ def check_prims(ctx):
     if nbad:
         raise common.HarnessError('%d driver primitives disagree with CPython (model transcription or CPython '
                                   'version changed); first: %s' % (nbad, ctx.notes[-1]))
+
+
+def direct_api(ctx, world):
+    """The anchored helpers called directly, outside the tool: `www_authenticate` with explicit algorithm / qop (the
+    tool only ever uses the defaults, so its two `raise ValueError` lines are dead through the tool - theorem
+    `wwwAuthenticate_defaults`) and the `HttpDigestAuthorization` constructor on headers `digest_auth` would not hand
+    it (its own scheme test).  Compared with the model functions `wwwAuthenticate` / `parseAuth`."""
+    ad = world.auth_digest
+    rng = ctx.rng
+    lines, real, cases = [], [], []
+    for _ in range(ctx.budget(60, 600)):
+        realm, key, cs = rng.choice(cl.REALMS), rng.choice(cl.KEYS), rng.choice(cl.CHARSETS)
+        alg = rng.choice(['MD5', 'MD5', 'MD5-sess', 'md5', 'SHA-256', '', 'MD5-SESS', 'MD5 '])
+        qop = rng.choice(['auth', 'auth', 'auth-int', 'AUTH', '', 'auth,auth-int', 'none', ' auth'])
+        now = rng.choice([0, 599, 1234567890, 1700000000, 2 ** 31 + 5])
+        stale = rng.random() < 0.5
+        world.clock.now = now + rng.choice([0.0, 0.5, 0.999])
+        try:
+            with Watchdog(CALL_TIMEOUT):
+                r = ad.www_authenticate(realm, key, algorithm=alg, qop=qop, stale=stale, accept_charset=cs)
+            got = 'ok ' + T(r) if isinstance(r, str) else 'returned ' + type(r).__name__
+        except ValueError:
+            got = 'ValueError'
+        except (KeyboardInterrupt, common.HarnessError):
+            raise
+        except BaseException as e:      # noqa
+            got = 'raised ' + type(e).__name__
+        lines.append('wwwauth %s %s %s %s %s %d %d' % (T(cs), T(realm), T(key), T(alg), T(qop), now, 1 if stale else 0))
+        real.append(got)
+        cases.append({'kind': 'direct:www_authenticate', 'realm': realm, 'key': key, 'charset': cs, 'algorithm': alg,
+                      'qop': qop, 'now': now, 'stale': stale})
+    hdrs = ['Basic QWxhZGRpbjpvcGVuIHNlc2FtZQ==', '', 'Digestx a="b"', 'digest', 'Digest', 'Bearer t', ' Digest a=b',
+            'Digest a=', 'Digest a', 'digest username="u", realm="R", nonce="n", uri="/", response="r"',
+            'DIGEST username="u", realm="R", nonce="n", uri="/", response="r", qop=auth',
+            'Digest username="u", realm="R", nonce="n", uri="/", response="r", qop=auth, nc=1, cnonce="c", algorithm=MD5-sess',
+            'Digest username="\xe9", realm="R", nonce="n", uri="/", response="r"',
+            'Digest username="\u4e2d", realm="R", nonce="n", uri="/", response="r"']
+    for h in hdrs:
+        for cs in ('utf-8', 'iso-8859-1', 'ascii'):
+            try:
+                with Watchdog(CALL_TIMEOUT):
+                    ad.HttpDigestAuthorization(h, 'GET', accept_charset=cs)
+                got = 'ok'
+            except (ValueError, IndexError) as e:
+                got = 'IndexError' if isinstance(e, IndexError) else 'ValueError'
+            except (KeyboardInterrupt, common.HarnessError):
+                raise
+            except BaseException as e:      # noqa
+                got = 'raised ' + type(e).__name__
+            lines.append('ctor %s %s %s' % (T(cs), CODEC[cs], T(h)))
+            real.append(got)
+            cases.append({'kind': 'direct:HttpDigestAuthorization', 'header': h, 'charset': cs})
+    for c in cases:
+        ctx.case(c, nontrivial=True)
+        ctx.count('kind:' + c['kind'])
+    out = ctx.model(lines)
+    if out is None:
+        return
+    for c, r, m in zip(cases, real, out):
+        ctx.compared()
+        if r != m:
+            ctx.disagree(c, r if not r.startswith('ok ') else ['ok', unT(r[3:])],
+                         m if not m.startswith('ok ') else ['ok', unT(m[3:])],
+                         '%s called directly differs from the model' % c['kind'].split(':')[1])
 
 
 def corpus_cases():
@@ -596,7 +886,8 @@ def _chunk(args):
             done += len(cases)
     finally:
         world.close()
-    return {'evaluations': sub.evaluations, 'nontrivial': list(sub._nontrivial), 'hist': sub.hist,
+    cov_ex, cov_hit = world.cov.result()
+    return {'cov_ex': cov_ex, 'cov_hit': cov_hit, 'repo_files': world.repo_files, 'evaluations': sub.evaluations, 'nontrivial': list(sub._nontrivial), 'hist': sub.hist,
             'fails': sub.oracle_failures[:50], 'known': sub.known_seen, 'dis': sub.disagreements[:50],
             'compared': sub.disagreements_checked, 'lines': sub.driver.lines if sub.driver else 0,
             'samples': sub.samples[:3]}
@@ -605,7 +896,17 @@ def _chunk(args):
 _LEAN = [None]
 
 
+_COV = {'ex': set(), 'hit': set(), 'files': {}}
+
+
+def _cov_add(ex, hit, files):
+    _COV['ex'].update(tuple(x) for x in ex)
+    _COV['hit'].update(tuple(x) for x in hit)
+    _COV['files'].update(files)
+
+
 def _merge(ctx, r):
+    _cov_add(r['cov_ex'], r['cov_hit'], r['repo_files'])
     ctx.evaluations += r['evaluations']
     ctx._nontrivial.update(r['nontrivial'])
     for k, v in r['hist'].items():
@@ -632,6 +933,7 @@ def run(ctx):
             if e.get('witness'):
                 check_cases(ctx, world, [e['witness']])
         check_cases(ctx, world, corpus_cases())
+        direct_api(ctx, world)
         if ctx.quick():
             n = 4000
             done = 0
@@ -641,6 +943,10 @@ def run(ctx):
                 done += len(cases)
     finally:
         world.close()
+        if world.cov_on:
+            _cov_add(*world.cov.result(), world.repo_files)
+        else:
+            ctx.note('sys.monitoring not available: anchored line coverage not measured')
     if not ctx.quick():
         _LEAN[0] = ctx.lean
         procs = min(16, os.cpu_count() or 4)
@@ -649,6 +955,8 @@ def run(ctx):
         args = [(ctx.rng.getrandbits(48), per, True) for _ in range(total // per)]
         for r in common.parallel_map(_chunk, args, procs=procs):
             _merge(ctx, r)
+    if _COV['ex']:
+        coverage_report(ctx, sorted(_COV['ex']), sorted(_COV['hit']), _COV['files'])
 
 
 def search(ctx, around=None):
@@ -663,15 +971,18 @@ def search(ctx, around=None):
 def replay(ctx, case):
     world = World()
     try:
-        obs = world.call(case['cfg'], case['header'], case['method'], case['body'].encode('latin-1'), case['now'])
+        obs = run_one(world, case)
         print('config :', json.dumps(case['cfg'], ensure_ascii=True))
-        print('request: %s / at clock %r, Authorization: %r  [%s]'
-              % (case['method'], case['now'], case['header'], case['kind']))
+        print('request: %s %s at clock %r, Authorization: %r  [%s]'
+              % (case['method'], case.get('path', '/'), case['now'], case['header'], case['kind']))
         print('impl   :', json.dumps(canon_real(obs), ensure_ascii=True))
-        hdr = obs['hdr'] if obs['hook'] else (case['header'].strip() if case['header'] is not None else None)
-        m = ctx.model([model_line(case, hdr)])
-        if m:
-            print('model  :', json.dumps(parse_model(m[0]), ensure_ascii=True))
+        ref = cl.process_header_ref(case['header'])
+        print('tool reads: impl %r, reference %r' % (obs['hdr'] if obs['hook'] else None, ref))
+        if ref != ('400',) and obs['status'] is not None:
+            hdr = obs['hdr'] if obs['hook'] else ref[1]
+            m = ctx.model([model_line(case, hdr)])
+            if m:
+                print('model  :', json.dumps(parse_model(m[0]), ensure_ascii=True))
         check_cases(ctx, world, [case])
     finally:
         world.close()
